@@ -13,7 +13,8 @@
 (* recipe (bad slot, bad parent state root, bad extrinsic hash/order, bad seal, ...).*)
 EXTENDS NodeImport, Json, SequencesExt
 CONSTANTS OutFile, MaxLen, Seed, Keep,  \* keep 1 scenario in Keep (Keep = 1: all)
-          Core                         \* also emit the core family for every world
+          Core,                        \* also emit the core families for every world
+          LongN, LongK                 \* the long history: LongN accepted blocks, LongK refused ones (0, 0: none)
 
 RECURSIVE Verdicts(_, _, _, _)
 Verdicts(w, nd, s, i) ==
@@ -45,11 +46,33 @@ InOrder == [i \in 1..N |-> i]
 \* fork) first and the oldest block arrives as a late fork block, which the node refuses or not
 \* according to the newest entry of its ancestry list
 Rotated == [i \in 1..N |-> IF i = N THEN 1 ELSE i + 1]
+\* every intrinsically valid block sent twice in a row (the second time it is the head and is refused
+\* as "not a child of itself"): whatever a refusal cleans up must not be what the accepted block needs
+\* later, when the node has to reload it (a rejected block after it, a switch to another fork and back)
+RECURSIVE DupSeq(_, _)
+DupSeq(w, x) == IF x > N THEN <<>>
+                ELSE (IF w.kind[x] = "ok" THEN <<x, x>> ELSE <<x>>) \o DupSeq(w, x + 1)
 CoreS == IF ~Core THEN <<>>
          ELSE SetToSeq({[w |-> w, s |-> CoreSeq(w, InOrder, 1)] : w \in Worlds})
               \o (IF N = 1 THEN <<>>
                   ELSE SetToSeq({[w |-> w, s |-> CoreSeq(w, Rotated, 1)] : w \in {v \in Worlds : v.anc}}))
+              \o SetToSeq({[w |-> w, s |-> DupSeq(w, 1)] :
+                             w \in {v \in Worlds : ~v.anc /\ Cardinality({x \in Blocks : v.kind[x] # "ok"}) <= 1}})
+
+\* the long history (one scenario, its own world): a chain of LongN valid blocks, then LongK invalid
+\* children of the middle block - LongN + LongK passes the node's retention window of 24 entries while
+\* LongN alone does not - then a valid child of block 2 (a fork back to an old block).  Refused imports
+\* must leave every answer unchanged: GetState of the old blocks, and the fork back.
+LongM == LongN + LongK + 1
+LongMid == (LongN + 1) \div 2
+LongW == [parent |-> [x \in 1..LongM |-> IF x <= LongN THEN x - 1 ELSE IF x < LongM THEN LongMid ELSE 2],
+          kind |-> [x \in 1..LongM |-> IF x > LongN /\ x < LongM THEN (IF x % 3 = 0 THEN "s1" ELSE "s2") ELSE "ok"],
+          anc |-> FALSE]
+LongSeq == [i \in 1..LongM |-> i]
+LongCase == [n |-> LongM, parent |-> LongW.parent, kind |-> LongW.kind, seq |-> LongSeq, anc |-> 0,
+             expect |-> Verdicts(LongW, FreshIn(LongW), LongSeq, 1)]
 Cases == [i \in 1..Len(CoreS) |-> Out(CoreS[i])] \o [i \in 1..Len(Kept) |-> Out(Kept[i].c)]
+         \o (IF LongN > 0 THEN <<LongCase>> ELSE <<>>)
 
 ASSUME ndJsonSerialize(OutFile, Cases)
 
